@@ -3,6 +3,7 @@
 //! answer in the same syntax (`impl.txt`).  `check` compares the streams.
 mod common;
 mod small;
+mod tables;
 
 use common::Out;
 
@@ -23,6 +24,9 @@ fn main() {
         "c18" => small::c18(&mut out, thorough),
         "c19" => small::c19(&mut out, thorough),
         "c20" => small::c20(&mut out, thorough),
+        "c09" => tables::c09(&mut out, thorough),
+        "c08" => tables::c08(&mut out, thorough),
+        "c04keys" => tables::c04keys(&mut out, thorough),
         _ => {
             eprintln!("unknown stream {stream}");
             std::process::exit(2);
